@@ -47,6 +47,12 @@ structure Obj where
 
 def Obj.shape (o : Obj) : List Nat := o.lead ++ [o.n]
 
+/-- the last axis has the `LM_total_size(0, ell_max)` entries the metadata promises (`ell_max ≥ -1`; every object
+    the constructor returns for `0 ≤ ell_min ≤ ell_max + 1` is of this kind) -/
+def WellFormed (o : Obj) : Prop := o.n = (Gen.Ysize 0 o.md.ellMax).toNat ∧ -1 ≤ o.md.ellMax
+
+instance (o : Obj) : Decidable (WellFormed o) := inferInstanceAs (Decidable (_ ∧ _))
+
 /-- a ufunc / method operand: a Modes, or anything else seen through `np.asanyarray` (Python scalars have
     shape `[]`); `nonzero` is `np.any(x)` -/
 inductive Operand where
@@ -496,7 +502,13 @@ def methodNorm (self : Obj) : Outcome := .plain .float self.lead
 
 /-! ## the conjugation loops (entries) -/
 
-@[noinline] def upd {α : Type} (c : Nat → α) (i : Nat) (v : α) : Nat → α := fun p => if p = i then v else c p
+/-- a row of entries being written (a structure rather than a bare function so that compiled code evaluates a
+    loop once instead of once per lookup) -/
+structure Row (α : Type) where
+  get : Nat → α
+
+/-- `c[..., i] = v` -/
+def Row.upd {α : Type} (c : Row α) (i : Nat) (v : α) : Row α := ⟨fun p => if p = i then v else c.get p⟩
 
 /-- `x` or `-x` according to the parity of `k` (`k % 2 == 0` in Python: non-negative remainder) -/
 def sgn {α : Type} (neg : α → α) (k : Int) (x : α) : α := if k % 2 = 0 then x else neg x
@@ -506,35 +518,35 @@ def pos (ell m : Int) : Nat := (Yindex ell m 0).toNat
 
 /-- one `ell` of the loop in `Modes.conjugate` (spherical/modes/algebra.py); `inplace`: `c` *is* `s` -/
 def conjStepMethod {α : Type} (neg conj : α → α) (s : Int) (inplace : Bool) (src : Nat → α)
-    (c : Nat → α) (ell : Int) : Nat → α :=
-  let rd := fun (c : Nat → α) => if inplace then c else src
-  let c := upd c (pos ell 0) (sgn neg s (conj (rd c (pos ell 0))))
+    (c : Row α) (ell : Int) : Row α :=
+  let rd := fun (c : Row α) (p : Nat) => if inplace then c.get p else src p
+  let c := c.upd (pos ell 0) (sgn neg s (conj (rd c (pos ell 0))))
   (Spec.irange 1 ell).foldl (fun c m =>
     let a := conj (rd c (pos ell (-m)))
     let b := conj (rd c (pos ell m))
-    upd (upd c (pos ell m) (sgn neg (s + m) a)) (pos ell (-m)) (sgn neg (s + m) b)) c
+    (c.upd (pos ell m) (sgn neg (s + m) a)).upd (pos ell (-m)) (sgn neg (s + m) b)) c
 
 /-- `Modes.conjugate(inplace)`: the row written, starting from `c0` (`np.zeros_like(s)`, or `s` itself) -/
-def conjLoopMethod {α : Type} (neg conj : α → α) (s L : Int) (inplace : Bool) (src c0 : Nat → α) : Nat → α :=
+def conjLoopMethod {α : Type} (neg conj : α → α) (s L : Int) (inplace : Bool) (src : Nat → α) (c0 : Row α) : Row α :=
   (Spec.irange (s.natAbs : Int) L).foldl (conjStepMethod neg conj s inplace src) c0
 
 /-- one `ell` of the loop in the `np.conjugate` branch of `__array_ufunc__` (spherical/modes/ufuncs.py) -/
-def conjStepUfunc {α : Type} (neg conj : α → α) (s : Int) (src : Nat → α) (c : Nat → α) (ell : Int) : Nat → α :=
+def conjStepUfunc {α : Type} (neg conj : α → α) (s : Int) (src : Nat → α) (c : Row α) (ell : Int) : Row α :=
   let i := pos ell 0
-  let c := if s % 2 = 0 then upd c i (conj (src i)) else upd c i (neg (conj (src i)))
+  let c := if s % 2 = 0 then c.upd i (conj (src i)) else c.upd i (neg (conj (src i)))
   (Spec.irange 1 ell).foldl (fun c m =>
     let ip := pos ell m
     let im := pos ell (-m)
-    if (s + m) % 2 = 0 then upd (upd c ip (conj (src im))) im (conj (src ip))
-    else upd (upd c ip (neg (conj (src im)))) im (neg (conj (src ip)))) c
+    if (s + m) % 2 = 0 then (c.upd ip (conj (src im))).upd im (conj (src ip))
+    else (c.upd ip (neg (conj (src im)))).upd im (neg (conj (src ip)))) c
 
 /-- the `np.conjugate` branch: `c0` = `np.zeros_like(s)` or the content of `out[0]` -/
-def conjLoopUfunc {α : Type} (neg conj : α → α) (s L : Int) (src c0 : Nat → α) : Nat → α :=
+def conjLoopUfunc {α : Type} (neg conj : α → α) (s L : Int) (src : Nat → α) (c0 : Row α) : Row α :=
   (Spec.irange (s.natAbs : Int) L).foldl (conjStepUfunc neg conj s src) c0
 
 /-- the stored row of the result: the constructor then zeroes everything below `|−s|` -/
-def conjRow {α : Type} (neg conj : α → α) (s L : Int) (src c0 : Nat → α) (zero : α) : Nat → α :=
-  stored (-s) 0 L (conjLoopUfunc neg conj s L src c0) zero
+def conjRow {α : Type} (neg conj : α → α) (s L : Int) (src : Nat → α) (c0 : Row α) (zero : α) : Nat → α :=
+  stored (-s) 0 L (conjLoopUfunc neg conj s L src c0).get zero
 
 /-! ## `_multiplication_helper`: the loop nest as a list of terms -/
 
@@ -557,8 +569,8 @@ def terms (L1 L2 Lfg : Int) : List Term :=
               (Min.min (ell1 + ell2) Lfg)).map fun ell3 => (ell1, m1, ell2, m2, ell3)
 
 /-- the accumulation `fg[..., i] += val(term)` over a list of terms, starting from `fg0` -/
-def accumulate {β : Type} (add : β → β → β) (val : Term → β) (ts : List Term) (fg0 : Nat → β) : Nat → β :=
-  ts.foldl (fun fg t => upd fg t.widx (add (fg t.widx) (val t))) fg0
+def accumulate {β : Type} (add : β → β → β) (val : Term → β) (ts : List Term) (fg0 : Row β) : Row β :=
+  ts.foldl (fun fg t => fg.upd t.widx (add (fg.get t.widx) (val t))) fg0
 
 /-! ## copy / pickle hooks -/
 
